@@ -596,7 +596,7 @@ def judge(trace, rec, base):
         if exc is None and not failing_fired:
             # a dump that succeeds must have produced something that loads (two-sided oracle)
             ok_reload = _reloads(w, rec)
-            if ok_reload and rec["incompat"] in ("nonaufbau", "nonaufbau_beta") and not _occupations_survive(rec["objs"][0], rec["reloaded"]):
+            if ok_reload and rec["incompat"] in ("nonaufbau", "nonaufbau_beta", "nonaufbau_near") and not _occupations_survive(rec["objs"][0], rec["reloaded"], 1e-9 if rec["incompat"] == "nonaufbau_near" else 1e-6):
                 out.append(_v("bad_success", f"dump of {rec['incompat']} object succeeded but the file denotes other occupations", trace, "incompat-occ"))
             if not ok_reload and _plain_object_reloads(w):
                 # (only meaningful when the same object *without* the incompatibility writes a loadable file:
@@ -669,7 +669,7 @@ def _reloads(w, rec, objs=None):
     return True
 
 
-def _occupations_survive(data, back):
+def _occupations_survive(data, back, atol=1e-6):
     """For an incompatibility that has no conversion (e.g. non-aufbau occupations for FCHK) a *successful* dump is
     only acceptable if the format really stores what was passed in: alpha/beta occupations read back unchanged."""
     try:
@@ -681,7 +681,7 @@ def _occupations_survive(data, back):
 
     if a0 is None or a1 is None or a0.shape != a1.shape or b0.shape != b1.shape:
         return True
-    return bool(np.allclose(a0, a1, atol=1e-6) and np.allclose(b0, b1, atol=1e-6))
+    return bool(np.allclose(a0, a1, rtol=0, atol=atol) and np.allclose(b0, b1, rtol=0, atol=atol))
 
 
 def _plain_object_reloads(w):
